@@ -828,20 +828,92 @@ theorem srem_singleton_nonmember (st : AList Unit) (member : Bytes) (hm : DsSet.
     DsSet.srem st [member] = (st, 0) := by
   simp [DsSet.srem, hm]
 
-/-- SMOVE of something that is not a member of the source: reply false, source unchanged (whatever
-    the destination is) -/
+/-- both write accesses of `Api.smove` (source, then destination — the latter added by the repair that
+    checks the destination's type first) leave the classification of every key as it was -/
+theorem pres_smove_writes (s : MState) (now : Int) (src dst : Bytes) :
+    Pres s (writeKey (writeKey s now src none).1 now dst none).1 now :=
+  (pres_writeKey_none s now src).trans (pres_writeKey_none _ now dst)
+
+/-- SMOVE of something that is not a member of the source: the source is unchanged whatever the
+    destination is; the reply is false when the destination is missing or a set, and the call fails
+    (wrong type) when the destination holds another type -/
 theorem smove_not_member (s : MState) (now : Int) (src dst member : Bytes) (st : AList Unit)
     (h : Hot s src (.set st) now) (hm : DsSet.mem st member = false) :
-    (smove s now src dst member).2 = .bool false ∧ Hot (smove s now src dst member).1 src (.set st) now := by
+    Hot (smove s now src dst member).1 src (.set st) now ∧
+    (DstOk s dst now → (smove s now src dst member).2 = .bool false) ∧
+    (DstWrong s dst now → (smove s now src dst member).2 = .panic) := by
   have hw := hot_after_writeKey s now src none _ h
+  have p1 := pres_writeKey_none s now src
+  have hw2 := (pres_writeKey_none (writeKey s now src none).1 now dst).2 _ _ hw.2
   unfold smove
   rw [writeKey_hot_pair s now src none _ h]
   simp only [Bool.not_true, Bool.false_eq_true, if_false]
   rw [asSet_hot hw.2]
   simp only
+  rw [pair_eta (writeKey (writeKey s now src none).1 now dst none)]
+  simp only
   rw [srem_singleton_nonmember st member hm]
   simp only [if_true]
-  exact ⟨trivial, hot_setVal _ _ _ _ _ hw.2⟩
+  split
+  · next hc =>
+    refine ⟨hw2, fun hd => ?_, fun _ => rfl⟩
+    rw [smove_check_ok _ now dst (dstOk_pres p1 hd)] at hc
+    cases hc
+  · next hc =>
+    refine ⟨hot_setVal _ _ _ _ _ hw2, fun _ => rfl, fun hd => ?_⟩
+    rw [smove_check_wrong _ now dst (dstWrong_pres p1 hd)] at hc
+    exact absurd rfl hc
+
+/-- SMOVE to a destination that holds another type: the call fails before anything is moved — every key
+    (source and destination included) is classified as before, the index stays well formed -/
+theorem smove_wrong_dst (s : MState) (now : Int) (src dst member : Bytes) (st : AList Unit)
+    (h : Hot s src (.set st) now) (hd : DstWrong s dst now) :
+    (smove s now src dst member).2 = .panic ∧ Pres s (smove s now src dst member).1 now ∧
+    (IndexSorted s → IndexSorted (smove s now src dst member).1) := by
+  have hw := hot_after_writeKey s now src none _ h
+  have p1 := pres_writeKey_none s now src
+  unfold smove
+  rw [writeKey_hot_pair s now src none _ h]
+  simp only [Bool.not_true, Bool.false_eq_true, if_false]
+  rw [asSet_hot hw.2]
+  simp only
+  rw [pair_eta (writeKey (writeKey s now src none).1 now dst none)]
+  simp only
+  rw [smove_check_wrong _ now dst (dstWrong_pres p1 hd)]
+  simp only [if_true]
+  exact ⟨trivial, pres_smove_writes s now src dst, fun hi => writeKey_sorted _ now dst none (writeKey_sorted s now src none hi)⟩
+
+/-- SMOVE of the only member to another key that is missing or a set: the source ceases to exist -/
+theorem smove_src_gone (s : MState) (now : Int) (src dst member : Bytes) (st : AList Unit)
+    (h : Hot s src (.set st) now) (hs : IndexSorted s) (hne : src ≠ dst) (hd : DstOk s dst now)
+    (hsorted : AList.Sorted st)
+    (hmem : DsSet.mem st member = true) (hlast : ∀ x, DsSet.mem st x = true → x = member) :
+    getMeta (smove s now src dst member).1 src = none := by
+  have hw := hot_after_writeKey s now src none _ h
+  have p1 := pres_writeKey_none s now src
+  have hs2 : IndexSorted (writeKey (writeKey s now src none).1 now dst none).1 :=
+    writeKey_sorted _ now dst none (writeKey_sorted s now src none hs)
+  unfold smove
+  rw [writeKey_hot_pair s now src none _ h]
+  simp only [Bool.not_true, Bool.false_eq_true, if_false]
+  rw [asSet_hot hw.2]
+  simp only
+  rw [pair_eta (writeKey (writeKey s now src none).1 now dst none)]
+  simp only
+  rw [smove_check_ok _ now dst (dstOk_pres p1 hd)]
+  simp only [Bool.false_eq_true, if_false]
+  rw [srem_singleton_last st member hsorted hmem hlast]
+  have hgone : getMeta (signal (delKey (setVal (writeKey (writeKey s now src none).1 now dst none).1 src (.set [])) src) src) src = none := by
+    rw [getMeta_signal_same, getMeta_delKey_same _ _ (setVal_sorted _ _ _ hs2)]; rfl
+  simp only [Int.reduceEq, if_false, DsSet.scard, List.length_nil, Int.natCast_zero, if_true]
+  have hw' := getMeta_writeKey_other (signal (delKey (setVal (writeKey (writeKey s now src none).1 now dst none).1 src (.set [])) src) src) now dst
+    (some (.set [])) src hne
+  rw [hgone] at hw'
+  split
+  · exact hw'
+  · simp only
+    rw [getMeta_emit, getMeta_signal_other _ _ _ hne]
+    exact getMeta_setVal_none _ _ _ _ hw' hne
 
 theorem smove_missing_src (s : MState) (now : Int) (src dst member : Bytes) (h : Absent s src now) :
     (smove s now src dst member).2 = .bool false := by
@@ -872,24 +944,31 @@ theorem smove_same_key (s : MState) (now : Int) (key member : Bytes) (st : AList
     (smove s now key key member).2 = .bool true ∧ Hot (smove s now key key member).1 key (.set st) now ∧
     IndexSorted (smove s now key key member).1 := by
   have hw := hot_after_writeKey s now key none _ h
-  have hsw := sorted_after_writeKey_hot s now key none _ h hi
+  have hsw1 := sorted_after_writeKey_hot s now key none _ h hi
+  have hw2 := hot_after_writeKey (writeKey s now key none).1 now key none _ hw.2
+  have hsw := sorted_after_writeKey_hot (writeKey s now key none).1 now key none _ hw.2 hsw1
   have hs' := erase_preserves_sorted st hst member
   unfold smove
   rw [writeKey_hot_pair s now key none _ h]
   simp only [Bool.not_true, Bool.false_eq_true, if_false]
   rw [asSet_hot hw.2]
   simp only
+  -- the destination check: the destination is the source, a set
+  rw [pair_eta (writeKey (writeKey s now key none).1 now key none)]
+  simp only
+  rw [smove_check_ok _ now key (Or.inr ⟨st, hw.2⟩)]
+  simp only [Bool.false_eq_true, if_false]
   rw [srem_singleton_member st member hm]
   simp only [Int.reduceEq, if_false]
-  -- the state before the second writeKey represents the reduced set
+  -- the state before the last writeKey represents the reduced set
   have hrel : SetRel (signal (if DsSet.scard (AList.erase st member) = 0
-        then delKey (setVal (writeKey s now key none).1 key (.set (AList.erase st member))) key
-        else setVal (writeKey s now key none).1 key (.set (AList.erase st member))) key) key now
+        then delKey (setVal (writeKey (writeKey s now key none).1 now key none).1 key (.set (AList.erase st member))) key
+        else setVal (writeKey (writeKey s now key none).1 now key none).1 key (.set (AList.erase st member))) key) key now
         (AList.erase st member) ∧
       IndexSorted (signal (if DsSet.scard (AList.erase st member) = 0
-        then delKey (setVal (writeKey s now key none).1 key (.set (AList.erase st member))) key
-        else setVal (writeKey s now key none).1 key (.set (AList.erase st member))) key) := by
-    have hsv := setVal_sorted (writeKey s now key none).1 key (.set (AList.erase st member)) hsw
+        then delKey (setVal (writeKey (writeKey s now key none).1 now key none).1 key (.set (AList.erase st member))) key
+        else setVal (writeKey (writeKey s now key none).1 now key none).1 key (.set (AList.erase st member))) key) := by
+    have hsv := setVal_sorted (writeKey (writeKey s now key none).1 now key none).1 key (.set (AList.erase st member)) hsw
     by_cases hc : DsSet.scard (AList.erase st member) = 0
     · rw [if_pos hc]
       refine ⟨⟨hs', Or.inl ⟨eq_nil_of_length_zero _ hc, ?_⟩⟩, signal_sorted _ _ (delKey_sorted _ _ hsv)⟩
@@ -897,7 +976,7 @@ theorem smove_same_key (s : MState) (now : Int) (key member : Bytes) (st : AList
       rw [getMeta_signal_same, getMeta_delKey_same _ _ hsv] at hm'
       cases hm'
     · rw [if_neg hc]
-      exact ⟨⟨hs', Or.inr ⟨ne_nil_of_length _ hc, hot_signal _ _ _ _ (hot_setVal _ _ _ _ _ hw.2)⟩⟩,
+      exact ⟨⟨hs', Or.inr ⟨ne_nil_of_length _ hc, hot_signal _ _ _ _ (hot_setVal _ _ _ _ _ hw2.2)⟩⟩,
         signal_sorted _ _ hsv⟩
   obtain ⟨hot5, hi5⟩ := open_set _ now key (AList.erase st member) hrel.1 hrel.2
   rw [pair_eta (writeKey _ now key (some (.set [])))]
